@@ -427,6 +427,16 @@ func main() {
 	o.WriteString("/-- ONE call of cacheViewFromFile as the steps that touch the loading mutex, the cache and the file, in the ORDER of the\n    source (top-level statements; `defer:` = registered there, runs at `return`) -/\ndef loaderSteps : List String :=\n  " + leanList(loaderSteps(fd, loadIf)) + "\n\n")
 	o.WriteString("/-- its caller loadObjectFromFile: the view handed to the statement is taken out of the cache after the call -/\ndef loaderCaller : List String :=\n  " + leanList(loaderCaller(findFunc(lv, "", "loadObjectFromFile"))) + "\n\n")
 	o.WriteString("/-- what the deferred restore of a FAILED reload puts back into the cache -/\ndef restoredView : String := " + fmt.Sprintf("%q", restoredView(loadIf)) + "\n\n")
+	muts, sites, callers, kinds := evictionFacts()
+	o.WriteString("/-- the methods of ViewMap / SyncMap that change the map -/\ndef viewMapMutators : List String :=\n  " + leanList(muts) + "\n\n")
+	o.WriteString("/-- EVERY call of such a method on Transaction.CachedViews in the tree, as pkg.Func:Method -/\ndef cacheMutationSites : List String :=\n  " + leanList(sites) + "\n\n")
+	o.WriteString("/-- one level through the call graph (by name): the calls of the functions that hold such a site -/\ndef cacheMutatorCallers : List String :=\n  " + leanList(callers) + "\n\n")
+	var ks []string
+	for _, k := range kinds {
+		ks = append(ks, fmt.Sprintf("(%q, %q)", k[0], k[1]))
+	}
+	o.WriteString("/-- the cases of Processor.ExecuteStatement from which a site other than the load in cacheViewFromFile is reached (by name) -/\ndef cacheStmtKinds : List (String × String) :=\n  [" + strings.Join(ks, ",\n   ") + "]\n\n")
+	o.WriteString("/-- every statement type Processor.ExecuteStatement dispatches on -/\ndef stmtCases : List String :=\n  " + leanList(stmtCases) + "\n\n")
 	o.WriteString("end Csvq.Gen\n")
 	fmt.Print(o.String())
 }
